@@ -527,3 +527,97 @@ class Create(Contract):
             out["pixels-group-prepared-for-the-meta-columns"] = And(_rel(a[0].path) == "pixels", a[1] == nb, a[3] == cols, a[2] == cap)
         return out
 
+
+
+class _Tbl:
+    """a whole pixel table (DataFrame built from the caller's table)"""
+
+    def __init__(self, log, src, sorted_by=None):
+        self.log, self.src, self.sorted_by = log, src, sorted_by
+
+    def pyvc_getattr(self, I, attr, node):
+        if attr == "sort_values":
+            def sv(I, by, **k):
+                self.log.append(("sort_values", by, k))
+                return _Tbl(self.log, self.src, by)
+            return LibFunc("DataFrame.sort_values", sv)
+        raise Exception("DataFrame." + attr)
+
+    def pyvc_getitem(self, I, key, node):
+        tbl = self
+
+        class _TCol:
+            def pyvc_getattr(self_, I, attr, node):
+                if attr in ("is_monotonic_increasing", "is_monotonic"):
+                    # whether one id column happens to be non-decreasing says nothing about the order of the pairs
+                    return I.path.fresh_bool(f"{key}.is_monotonic_increasing")
+                raise Exception("Series." + attr)
+        return _TCol()
+
+
+OPTS_COMMON = ["columns", "dtypes", "metadata", "assembly", "symmetric_upper", "mode", "boundscheck", "dupcheck", "triucheck",
+               "ensure_sorted", "h5opts", "lock"]
+OPTS_UNORDERED = ["mergebuf", "delete_temp", "temp_dir", "max_merge"]
+
+
+@contract
+class CreateCooler(Contract):
+    """create_cooler: a table given whole (DataFrame or dict) is sorted by (bin1_id, bin2_id) - always: sortedness of
+    bin1_id alone does not make it sorted - and written through create(); a stream is written through create() when the
+    caller says it is ordered and through create_from_unordered() otherwise; uri, bins and every option reach the
+    callee unchanged under their own keyword"""
+    target = f"{CR}:create_cooler"
+    props = ["C01", "C02"]
+
+    def configs(self, v):
+        def mk(form, ordered_sym):
+            def f(v):
+                log = []
+                src = {"frame": _Frame(["bin1_id", "bin2_id", "count"], v.Int("n_pix"), "pixels"),
+                       "dict": {"bin1_id": Opaque("b1"), "bin2_id": Opaque("b2"), "count": Opaque("c")},
+                       "stream": Opaque("an iterable of chunks")}[form]
+
+                def DataFrame_ctor(I, data=None, **k):
+                    log.append(("DataFrame", data))
+                    return _Tbl(log, data)
+                DF = LibFunc("pd.DataFrame", DataFrame_ctor)
+                DF.check = lambda x: isinstance(x, _Frame)
+
+                def rec(name):
+                    def f_(I, *a, **kw):
+                        log.append((name, a, kw))
+                    return LibFunc(name, f_)
+                opts = {k: Opaque("option " + k) for k in OPTS_COMMON + OPTS_UNORDERED}
+                args = dict(cool_uri=v.Str("cool_uri"), bins=Opaque("bins"), pixels=src,
+                            ordered=v.Bool("ordered") if ordered_sym else False, **opts)
+                args["__free__"] = {"pd": LibNS("pd", {"DataFrame": DF}), "create": rec("create"),
+                                    "create_from_unordered": rec("create_from_unordered")}
+                args["__ghost__"] = {"log": log, "form": form, "src": src, "opts": opts}
+                return args
+            return f
+        yield "table-as-frame", mk("frame", True)
+        yield "table-as-dict", mk("dict", True)
+        yield "stream", mk("stream", True)
+
+    def ensures(self, result, cool_uri, bins, pixels, ordered, **opts):
+        g = self._v.path.ghost
+        log, form = g["log"], g["form"]
+        calls = [op for op in log if op[0] in ("create", "create_from_unordered")]
+        out = {"exactly-one-producer-call": len(calls) == 1}
+        if len(calls) != 1:
+            return out
+        name, a, kw = calls[0]
+        if form in ("frame", "dict"):
+            out["a-whole-table-goes-through-create"] = name == "create"
+            srt = [op for op in log if op[0] == "sort_values"]
+            out["a-whole-table-is-always-sorted-by-both-ids"] = len(srt) == 1 and srt[0][1] == ["bin1_id", "bin2_id"] and not srt[0][2]
+            out["what-is-written-is-the-sorted-callers-table"] = len(a) == 3 and isinstance(a[2], _Tbl) and a[2].src is g["src"] \
+                and a[2].sorted_by == ["bin1_id", "bin2_id"]
+        else:
+            want = self._v.path.implied(ordered) if not isinstance(ordered, bool) else ordered
+            out["ordered-stream-through-create-else-through-the-sorting-path"] = name == ("create" if want else "create_from_unordered")
+            out["the-callers-stream-is-passed-on"] = len(a) == 3 and a[2] is g["src"]
+        out["uri-and-bins-unchanged"] = len(a) == 3 and a[0] is cool_uri and a[1] is bins
+        keys = OPTS_COMMON + (OPTS_UNORDERED if name == "create_from_unordered" else [])
+        out["every-option-reaches-the-callee-under-its-own-keyword"] = sorted(kw) == sorted(keys) and all(kw[k] is g["opts"][k] for k in keys)
+        return out
